@@ -1,6 +1,36 @@
-(* C05 - results do not depend on how the edit API is driven or on status settings. (work in progress header) *)
+(* C05 - results do not depend on how the edit API is driven or on status settings.
+
+   ApiSpec.v: the public operations of an edit (bounds, tighten_bounds, is_complete, valid, edits, has_non_zero_cost),
+   API machines (every operation may change the state), the contract AContract (an invariant closed under the
+   operations in any order on which nothing raises, with a measure bounding the tighten_bounds() calls that can still
+   return True), generic runs of histories (g_run) and the completion idiom + serialiser reading (g_final_cost).
+   ApiModel.v: the machines of MachineModel.v (C04) refined to single method calls: EditDistance.bounds() with its side
+   effects (edits(), back-trace, _cleanup()), the state "matrix complete, not yet finalised", the reads of the fringe
+   cells' bounds selected by DEFAULT_PRINTER.quiet, listings, sub-edits addressed through listings.
+
+   Proved, for ALL histories (unbounded length):
+     C05_history        any machine under AContract, calls on the edit itself: no call raises and completion yields the
+                        contract's value (C05_history_model: the universal machine's run is that generic run)
+     C05_const/_sum/_fixed_len/_edit_distance   the class lemmas: ConstantCostEdit; KeyValuePairEdit (component-wise
+                        sum); FixedLengthSequenceEdit under repeat_until_tightened; EditDistance and StringEdit over
+                        sub-edits that satisfy the contract (nested lists of lists included), for BOTH settings of the
+                        status flag; the final value is the lower right cell of the big-step cost matrix
+                        (EdEngine.final_cost, the matrix of the script model) over the sub-edits' final values
+     C05_invariant      the structural invariant SI (every sub-edit at every level is in the invariant of its class) is
+                        closed under every call of a history - on the edit AND on sub-edits addressed through listings -
+                        and no such call raises
+     C05_model_partial  closing induction over trees: for every pair of the modelled fragment (scalars, strings, nested
+                        lists under all list options, key/value pairs) there is ONE value v such that for every history
+                        (calls on the edit and on listed sub-edits, any order) and both flag settings no call raises,
+                        every call is answered and completion yields v
+     C05_final_cost_partial   ... and v is the cost of the big-step script of the pair (ScriptModel.script) whenever
+                        that yields one
+     C05_quiet_irrelevant_partial   hence the two flag settings agree, whatever the two histories
+   partial: MultiSetEdit / the matcher / EditCollection (FixedKeyDictNodeEdit) / search have no model (holds_C05 on the
+   implementation's observations only); the theorem is about the final COST, the final SCRIPT is compared call by call
+   and as a whole by the correspondence run (corr_C05) only. *)
 From Coq Require Import ZArith List Bool.
-Require Import GT.Data GT.ScriptSpec GT.MachineSpec GT.ApiSpec GT.ApiModel GT.ApiProofs.
+Require Import GT.Data GT.EdEngine GT.ScriptSpec GT.ScriptModel GT.MachineSpec GT.MachineModel GT.ApiSpec GT.ApiModel GT.ApiProofs.
 Import ListNotations.
 Open Scope Z_scope.
 
@@ -8,4 +38,65 @@ Theorem C05_history : forall M s v, AContract M s v ->
   forall h, a_err M (g_run M h s) = false /\ g_final_cost M (g_run M h s) = Some v.
 Proof. exact contract_history. Qed.
 
+Theorem C05_history_model : forall q d s v, AContract (AM q d) s v -> forall h : list bop,
+  fst (run_hist q d (map root h) s) = g_run (AM q d) h s /\
+  existsb is_err (snd (run_hist q d (map root h) s)) = false /\
+  length (snd (run_hist q d (map root h) s)) = length h /\
+  finish_cost q d (fst (run_hist q d (map root h) s)) = Some v.
+Proof. exact model_root_history. Qed.
+
+Theorem C05_const : forall q c t, Good q (AConst c t) c.
+Proof. exact good_const. Qed.
+
+Theorem C05_sum : forall q l vs, Forall2 (Good q) l vs -> Good q (ASum l) (zsum vs).
+Proof. exact good_sum. Qed.
+
+Theorem C05_fixed_len : forall q l vs rems inss, Forall2 (Good q) l vs ->
+  Good q (AFixed l rems inss false) (zsum vs + zsum rems + zsum inss).
+Proof. exact good_fixed. Qed.
+
+Theorem C05_edit_distance : forall q sk p0 q0 frc fic (kids : list (list ast)) (mcs : list (list Z)),
+  let rc := middle p0 q0 frc in
+  let ic := middle p0 q0 fic in
+  (p0 + q0 <= length frc)%nat -> (p0 + q0 <= length fic)%nat ->
+  Forall (fun x => 0 <= x) frc -> Forall (fun x => 0 <= x) fic ->
+  length kids = length ic -> Forall (fun row => length row = length rc) kids ->
+  Forall2 (Forall2 (fun x v => 0 <= v /\ Good q x v)) kids mcs ->
+  Good q (AED sk p0 q0 (ed_init frc fic p0 q0 kids)) (final_cost rc ic mcs).
+Proof. exact good_ed. Qed.
+
+Theorem C05_invariant : forall q d v (h : history) s, SI q d s v ->
+  SI q d (fst (run_hist q d h s)) v /\ existsb is_err (snd (run_hist q d h s)) = false /\
+  length (snd (run_hist q d h s)) = length h /\ finish_cost q d (fst (run_hist q d h s)) = Some v.
+Proof. exact si_history. Qed.
+
+Theorem C05_model_partial : forall a b s, initA a b = Some s -> exists v, 0 <= v /\
+  forall (quiet : bool) (h : history),
+    existsb is_err (snd (run_hist quiet (aheight s) h s)) = false /\
+    length (snd (run_hist quiet (aheight s) h s)) = length h /\
+    finish_cost quiet (aheight s) (fst (run_hist quiet (aheight s) h s)) = Some v.
+Proof. exact C05_model. Qed.
+
+(* ... and v is the cost of the big-step script (ScriptModel.script, the model of C01/C03) whenever that yields one *)
+Theorem C05_final_cost_partial : forall a b s O pa pb e, initA a b = Some s -> script O pa pb a b = OK e ->
+  forall (quiet : bool) (h : history),
+    existsb is_err (snd (run_hist quiet (aheight s) h s)) = false /\
+    length (snd (run_hist quiet (aheight s) h s)) = length h /\
+    finish_cost quiet (aheight s) (fst (run_hist quiet (aheight s) h s)) = Some (cost e).
+Proof. exact C05_model_cost. Qed.
+
+Theorem C05_quiet_irrelevant_partial : forall a b s, initA a b = Some s -> forall (h1 h2 : history),
+  finish_cost true (aheight s) (fst (run_hist true (aheight s) h1 s)) =
+  finish_cost false (aheight s) (fst (run_hist false (aheight s) h2 s)).
+Proof. exact C05_quiet. Qed.
+
 Print Assumptions C05_history.
+Print Assumptions C05_history_model.
+Print Assumptions C05_const.
+Print Assumptions C05_sum.
+Print Assumptions C05_fixed_len.
+Print Assumptions C05_edit_distance.
+Print Assumptions C05_invariant.
+Print Assumptions C05_model_partial.
+Print Assumptions C05_final_cost_partial.
+Print Assumptions C05_quiet_irrelevant_partial.
